@@ -126,7 +126,7 @@ End GC.
 Definition gc_repo (E : env) (pol : gcpol) (now : Z) (rp : repo) : repo :=
   match repo_gc E pol now (r_blobs rp) (r_index rp) with
   | Some (Ok i', deleted) =>
-      mkR (filter (fun b => negb (mem_str (fst b) deleted)) (r_blobs rp)) i' (r_conv rp) (r_uploads rp)
+      mkR (fold_left (fun bl d => assoc_del d bl) deleted (r_blobs rp)) i' (r_conv rp) (r_uploads rp)
   | _ => rp          (* out of fuel / panic: excluded by gc_total (GCProofs.v) *)
   end.
 
@@ -148,6 +148,12 @@ Definition gc_one (cfg : config) (E : env) (pol : gcpol) (now : Z) (rp : repo) :
   | KMem => gc_repo E pol now rp
   end.
 
+(* dir.Close: sessions are dropped, every open repository is collected (unless read-only); then the new
+   server loads the directory *)
+Definition restart_repo (cfg : config) (E : env) (pol : gcpol) (now : Z) (rp : repo) : repo :=
+  let rp0 := mkR (r_blobs rp) (r_index rp) (r_conv rp) [] in
+  reload_repo E (if c_readonly cfg then rp0 else gc_one cfg E pol now rp0).
+
 Definition gstep (cfg : config) (pol : gcpol) (E : env) (s : state) (g : greq) : state * resp :=
   match g with
   | GReq q => step cfg E s q
@@ -165,12 +171,13 @@ Definition gstep (cfg : config) (pol : gcpol) (E : env) (s : state) (g : greq) :
   | GRestart =>
       match c_kind cfg with
       | KMem => (mkSt [] (st_nsid s) (st_now s), rsp 0)
-      | KDir =>
-          (* dir.Close: sessions are dropped, every open repository is collected (unless read-only),
-             then the new server loads the directory *)
-          let close rp :=
-            let rp0 := mkR (r_blobs rp) (r_index rp) (r_conv rp) [] in
-            if c_readonly cfg then rp0 else gc_one cfg E pol (st_now s) rp0 in
-          (mkSt (map (fun nr => (fst nr, reload_repo E (close (snd nr)))) (st_repos s)) (st_nsid s) (st_now s), rsp 0)
+      | KDir => (mkSt (map (fun nr => (fst nr, restart_repo cfg E pol (st_now s) (snd nr))) (st_repos s)) (st_nsid s) (st_now s), rsp 0)
       end
   end.
+
+(* the store-wide pass (dir.gc / mem.gc after the fix: a failing repository is skipped, the pass goes on):
+   every tracked repository is collected on its own; [fails r] = the collection of r errs (corrupt index.json,
+   directory removed) and leaves r untouched *)
+Definition gc_pass (cfg : config) (E : env) (pol : gcpol) (now : Z) (fails : string -> bool)
+           (repos : list (string * repo)) : list (string * repo) :=
+  map (fun nr => (fst nr, if fails (fst nr) then snd nr else gc_one cfg E pol now (snd nr))) repos.
